@@ -329,9 +329,24 @@ type knownFinding struct {
 	// another goroutine moves the site but not the defect
 	Rule           string `json:"rule,omitempty"`
 	DetailContains string `json:"detail_contains,omitempty"`
-	What        string `json:"what"`
-	Status      string `json:"status"` // "open" (recorded, not repaired) or "fixed"
-	Commit      string `json:"commit,omitempty"`
+	// optional: narrows an exact fingerprint further - the detail of the violation must contain this text too
+	// (e.g. the harness's marker that the input holds an absurdly large number), so that another defect that
+	// surfaces at the same site is still reported
+	Requires string `json:"requires,omitempty"`
+	What     string `json:"what"`
+	Status   string `json:"status"` // "open" (recorded, not repaired) or "fixed"
+	Commit   string `json:"commit,omitempty"`
+}
+
+// matches: is this violation the recorded finding?
+func (k *knownFinding) matches(prop string, v *Verdict) bool {
+	if k.Status != "open" || k.Property != prop {
+		return false
+	}
+	if k.Fingerprint == v.Fingerprint {
+		return k.Requires == "" || strings.Contains(v.Detail, k.Requires)
+	}
+	return k.DetailContains != "" && k.Rule == v.Rule && strings.Contains(v.Detail, k.DetailContains)
 }
 
 func loadKnown(verif string) []knownFinding {
@@ -398,6 +413,8 @@ func runDriver(prop, tier string, seed int64, from, count, nworkers int, verif, 
 		index int
 	}
 	firstByFP := map[string]found{}
+	known := loadKnown(verif)
+	knownHits := map[string]int{}
 	foreignByFP := map[string]int{}
 	foreignDetail := map[string]string{}
 	var harnessErrs []string
@@ -425,6 +442,19 @@ func runDriver(prop, tier string, seed int64, from, count, nworkers int, verif, 
 		simMillis += o.SimMillis
 		procs += o.Procs
 		for _, v := range o.Verdicts {
+			// every single violation is compared with the recorded findings (not one per fingerprint: a new
+			// defect may surface at the site of a recorded one)
+			isKnown := false
+			for ki := range known {
+				if known[ki].matches(prop, &v) {
+					knownHits[known[ki].Fingerprint]++
+					isKnown = true
+				}
+			}
+			if isKnown {
+				stats["known_finding_hits"]++
+				continue
+			}
 			if f, ok := firstByFP[v.Fingerprint]; !ok || reqs[i].Index < f.index {
 				firstByFP[v.Fingerprint] = found{v, reqs[i].Index}
 			}
@@ -446,29 +476,15 @@ func runDriver(prop, tier string, seed int64, from, count, nworkers int, verif, 
 	}
 
 	// triage violations
-	known := loadKnown(verif)
 	fps := make([]string, 0, len(firstByFP))
 	for fp := range firstByFP {
 		fps = append(fps, fp)
 	}
 	sort.Strings(fps)
 	violations := 0
-	knownHits := map[string]int{}
 	var violationSummaries []any
 	for _, fp := range fps {
 		f := firstByFP[fp]
-		isKnown := false
-		for _, k := range known {
-			if k.Status == "open" && k.Property == prop && (k.Fingerprint == fp ||
-				(k.DetailContains != "" && k.Rule == f.v.Rule && strings.Contains(f.v.Detail, k.DetailContains))) {
-				knownHits[k.Fingerprint]++
-				isKnown = true
-			}
-		}
-		if isKnown {
-			stats["known_finding_hits"]++
-			continue
-		}
 		violations++
 		if violations > 4 {
 			continue // enough replay files; the count is still reported
@@ -577,8 +593,8 @@ func measureSizes(m map[string]map[string]bool) map[string]int {
 }
 
 var realVsStub = map[string]any{
-	"real": "every package under /repo/klog (kong decoding, klog.Run, app.context, reconciler, serial+parallel parser, serialisers), real file system in a scratch directory",
-	"stub": "main() of klog.go (re-stated in the harness), OS clock, signals, process exit, goroutine scheduling (cooperative, one at a time), map iteration order, stdout",
+	"real":           "every package under /repo/klog (kong decoding, klog.Run, app.context, reconciler, serial+parallel parser, serialisers), real file system in a scratch directory",
+	"stub":           "main() of klog.go (re-stated in the harness), OS clock, signals, process exit, goroutine scheduling (cooperative, one at a time), map iteration order, stdout",
 	"never_executed": "editor / file explorer launching, version check network call, shell completion",
 }
 
